@@ -45,11 +45,11 @@ theorem C01_facts_as_modelled :
 
 /-! ## 1. A session is only given for credentials that verify -/
 
-/-- Environment assumption (about web servers, not about the hub): a request to a URL
-without dot segments is answered by the owner of every configured backend whose URL is a
-prefix of it. -/
-def Routes (cfg : Cfg) : Prop :=
-  ∀ (u : Url) (b : Backend), u.dotSeg = false → Names cfg u b → srvOk b u.srv = true
+/-- Environment assumption (about the web server behind the URL, not about the hub): if the
+URL has no dot segments, the server that answers it is the owner of every configured backend
+whose URL is a prefix of it (prefix routing; prefix-free configuration per host). -/
+def RoutedByPrefix (cfg : Cfg) (u : Url) : Prop :=
+  u.dotSeg = false → ∀ b : Backend, Names cfg u b → srvOk b u.srv = true
 
 theorem checkValid_none {m : Hello} (h : checkValid m = none) :
     (m.version = "1.0" ∨ m.version = "2.0") ∧
@@ -126,7 +126,7 @@ theorem helloResume_creds {cfg : Cfg} {env : Env} {now : Int} {h : Hub} {c : Nat
           exact List.mem_map.mpr ⟨s, hmem, rfl⟩
 
 theorem helloV1_creds {cfg : Cfg} {env : Env} {now : Int} {h : Hub} {c : Nat} {m : Hello}
-    {sid : Nat} {bid k u : String} (hr : Routes cfg) (hp : m.resume.present = false)
+    {sid : Nat} {bid k u : String} (hr : RoutedByPrefix cfg m.url) (hp : m.resume.present = false)
     (hty : effType m = HelloClientTypeClient ∨ effType m = HelloClientTypeFederation)
     (hver : m.version = "1.0") (hok : m.url.ok = true)
     (hs : (helloV1 cfg h c m).2 = .hello sid bid k u) : ValidCreds cfg env now h.live m sid bid := by
@@ -142,10 +142,10 @@ theorem helloV1_creds {cfg : Cfg} {env : Env} {now : Int} {h : Hub} {c : Nat} {m
       obtain ⟨_, hbid, _, _⟩ := register_hello hs
       left
       have hn := getBackend_names hok hb
-      exact ⟨hp, effType_clientish hty, hver, b, hn, hbid.symm, hr _ _ (getBackend_nodot hb) hn, user, hans⟩
+      exact ⟨hp, effType_clientish hty, hver, b, hn, hbid.symm, hr (getBackend_nodot hb) b hn, user, hans⟩
 
 theorem helloV2_creds {cfg : Cfg} {env : Env} {now : Int} {h : Hub} {c : Nat} {m : Hello}
-    {sid : Nat} {bid k u : String} (hr : Routes cfg) (hp : m.resume.present = false)
+    {sid : Nat} {bid k u : String} (hr : RoutedByPrefix cfg m.url) (hp : m.resume.present = false)
     (hty : effType m = HelloClientTypeClient ∨ effType m = HelloClientTypeFederation)
     (hver : m.version = "2.0") (hok : m.url.ok = true)
     (hs : (helloV2 cfg env now h c m).2 = .hello sid bid k u) : ValidCreds cfg env now h.live m sid bid := by
@@ -165,7 +165,7 @@ theorem helloV2_creds {cfg : Cfg} {env : Env} {now : Int} {h : Hub} {c : Nat} {m
           obtain ⟨halg, hkey, hvf, hval⟩ := jwtParse_none hparse
           right; left
           have hn := getBackend_names hok hb
-          exact ⟨hp, effType_clientish hty, hver, b, hn, hbid.symm, hr _ _ (getBackend_nodot hb) hn, halg, hkey, hvf,
+          exact ⟨hp, effType_clientish hty, hver, b, hn, hbid.symm, hr (getBackend_nodot hb) b hn, halg, hkey, hvf,
             timeValid_of_checks hval htime⟩
 
 theorem helloInternal_creds {cfg : Cfg} {env : Env} {now : Int} {h : Hub} {c : Nat} {m : Hello}
@@ -200,7 +200,7 @@ whose signature verifies under the key published by that backend and whose iat/e
 valid now (one minute of skew), an internal token equal to HMAC(secret, random) with a
 non-empty secret and ≥ 32 bytes of random, or the private id of a session in the table. -/
 theorem C01_session_needs_credentials (cfg : Cfg) (env : Env) (now : Int) (h : Hub) (c : Nat) (m : Hello)
-    (sid : Nat) (bid k u : String) (hr : Routes cfg)
+    (sid : Nat) (bid k u : String) (hr : RoutedByPrefix cfg m.url)
     (hs : (step cfg env now h (.hello c m)).2 = .hello sid bid k u) :
     ValidCreds cfg env now h.live m sid bid := by
   simp only [step] at hs
@@ -232,5 +232,343 @@ theorem C01_session_needs_credentials (cfg : Cfg) (env : Env) (now : Int) (h : H
             · rename_i hty
               exact helloInternal_creds hp' hty (hin hty) hs
             · simp at hs
+
+
+/-! ## 2. Nothing happens before hello -/
+
+/-- A frame other than a valid hello (any type, undecodable, invalid, or valid of another type;
+also `bye`), sent on an open connection that has no session. -/
+def PreHello (h : Hub) : Op → Prop
+  | .msg c ty shape => h.isOpen c = true ∧ h.sessionOf c = none ∧ (Op.msg c ty shape).isOther = true
+  | .bye c => h.isOpen c = true ∧ h.sessionOf c = none
+  | _ => False
+
+theorem C01_nothing_before_hello (cfg : Cfg) (env : Env) (now : Int) (h : Hub) (op : Op) (hp : PreHello h op) :
+    ∃ code, step cfg env now h op = (h, .error code) := by
+  cases op with
+  | connect c a => exact absurd hp (by simp [PreHello])
+  | disconnect c => exact absurd hp (by simp [PreHello])
+  | hello c m => exact absurd hp (by simp [PreHello])
+  | msg c ty shape =>
+    obtain ⟨ho, hs, hother⟩ := hp
+    simp only [step, ho, Bool.not_true, Bool.false_eq_true, if_false, hs]
+    cases shape with
+    | undecodable => exact ⟨_, rfl⟩
+    | invalid => exact ⟨_, rfl⟩
+    | valid =>
+      simp only [Op.isOther, ne_eq, not_true_eq_false, decide_false, Bool.or_false, decide_eq_true_eq] at hother
+      simp only [hother, ne_eq, not_false_eq_true, if_true]
+      exact ⟨_, rfl⟩
+  | bye c =>
+    obtain ⟨ho, hs⟩ := hp
+    simp only [step, ho, Bool.not_true, Bool.false_eq_true, if_false, hs]
+    exact ⟨_, rfl⟩
+
+/-- …and for every sequence of such frames, of any length, on any connections without session:
+the state at the end is the state at the start and every reply is an error. -/
+theorem C01_nothing_before_hello_seq (cfg : Cfg) (env : Env) (now : Int) (h : Hub) :
+    ∀ ops : List Op, (∀ op ∈ ops, PreHello h op) →
+      (run cfg env now h ops).1 = h ∧ ∀ r ∈ (run cfg env now h ops).2, ∃ code, r = .error code := by
+  intro ops
+  induction ops with
+  | nil => intro _; simp [run]
+  | cons op ops ih =>
+    intro hall
+    obtain ⟨code, hstep⟩ := C01_nothing_before_hello cfg env now h op (hall op List.mem_cons_self)
+    have ih' := ih (fun o ho => hall o (List.mem_cons_of_mem _ ho))
+    simp only [run, hstep]
+    refine ⟨ih'.1, ?_⟩
+    intro r hr
+    rcases List.mem_cons.mp hr with rfl | hr
+    · exact ⟨code, rfl⟩
+    · exact ih'.2 r hr
+
+/-- A hello that fails validation is answered with an error and changes nothing. -/
+theorem C01_invalid_hello_no_effect (cfg : Cfg) (env : Env) (now : Int) (h : Hub) (c : Nat) (m : Hello) (e : String)
+    (ho : h.isOpen c = true) (hv : checkValid m = some e) :
+    step cfg env now h (.hello c m) = (h, .error (errCode e)) := by
+  simp only [step, ho, Bool.not_true, Bool.false_eq_true, if_false, hv]
+
+
+/-! ## 3. What a hello can do to the server state -/
+
+/-- The three possible effects of a hello op on connection `c`. -/
+inductive HelloEffect (h : Hub) (c : Nat) : Hub × Reply → Prop
+  /-- refused or ignored: session table, connections and id counter untouched (only throttle records may change) -/
+  | refused (h' : Hub) (r : Reply) : (∀ sid b k u, r ≠ .hello sid b k u) → h'.sessions = h.sessions →
+      h'.conns = h.conns → h'.nextSid = h.nextSid → HelloEffect h c (h', r)
+  /-- a new session, attached to `c` -/
+  | registered (h' : Hub) (b k u : String) :
+      h'.sessions = h.sessions ++ [{ sid := h.nextSid, backend := b, kind := k, user := u, conn := some c }] →
+      h'.conns = h.conns → h'.nextSid = h.nextSid + 1 → HelloEffect h c (h', .hello h.nextSid b k u)
+  /-- an existing session, re-attached to `c` -/
+  | resumed (h' : Hub) (s : Sess) : s ∈ h.sessions →
+      h'.sessions = h.sessions.map (fun x => if x.sid = s.sid then { x with conn := some c } else x) →
+      h'.nextSid = h.nextSid → HelloEffect h c (h', .hello s.sid s.backend s.kind s.user)
+
+theorem effect_error (h : Hub) (c : Nat) (h' : Hub) (code : String) (h1 : h'.sessions = h.sessions)
+    (h2 : h'.conns = h.conns) (h3 : h'.nextSid = h.nextSid) : HelloEffect h c (h', .error code) :=
+  .refused h' _ (by intros; simp) h1 h2 h3
+
+theorem register_effect (h0 h : Hub) (c : Nat) (b : Backend) (kind user : String)
+    (h1 : h.sessions = h0.sessions) (h2 : h.conns = h0.conns) (h3 : h.nextSid = h0.nextSid) :
+    HelloEffect h0 c (register h c b kind user) := by
+  unfold register
+  split
+  · exact effect_error h0 c h _ h1 h2 h3
+  · rw [h3]
+    exact .registered _ b.id kind user (by simp [h1]) (by simp [h2]) (by simp)
+
+theorem helloResume_effect (now : Int) (h : Hub) (c : Nat) (m : Hello) :
+    HelloEffect h c (helloResume now h c m) := by
+  unfold helloResume
+  simp only []
+  split
+  · exact effect_error h c _ _ rfl rfl rfl
+  · split
+    · exact effect_error h c _ _ rfl rfl rfl
+    · split
+      · exact effect_error h c _ _ rfl rfl rfl
+      · rename_i s hfind
+        have hmem : s ∈ h.sessions := by
+          cases he : m.resume.exact with
+          | none => simp [he] at hfind
+          | some sid' =>
+            simp only [he, Option.bind_some] at hfind
+            exact List.mem_of_find?_eq_some hfind
+        exact .resumed _ s hmem rfl rfl
+
+theorem helloV1_effect (cfg : Cfg) (h : Hub) (c : Nat) (m : Hello) : HelloEffect h c (helloV1 cfg h c m) := by
+  unfold helloV1
+  split
+  · exact effect_error h c _ _ rfl rfl rfl
+  · split
+    · exact effect_error h c _ _ rfl rfl rfl
+    · exact effect_error h c _ _ rfl rfl rfl
+    · exact effect_error h c _ _ rfl rfl rfl
+    · exact register_effect h h c _ _ _ rfl rfl rfl
+
+theorem helloV2_effect (cfg : Cfg) (env : Env) (now : Int) (h : Hub) (c : Nat) (m : Hello) :
+    HelloEffect h c (helloV2 cfg env now h c m) := by
+  unfold helloV2
+  split
+  · exact effect_error h c _ _ rfl rfl rfl
+  · split
+    · exact effect_error h c _ _ rfl rfl rfl
+    · split
+      · exact effect_error h c _ _ rfl rfl rfl
+      · split
+        · exact effect_error h c _ _ rfl rfl rfl
+        · exact register_effect h h c _ _ _ rfl rfl rfl
+
+theorem helloInternal_effect (cfg : Cfg) (now : Int) (h : Hub) (c : Nat) (m : Hello) :
+    HelloEffect h c (helloInternal cfg now h c m) := by
+  unfold helloInternal
+  split
+  · exact effect_error h c _ _ rfl rfl rfl
+  · simp only []
+    split
+    · exact effect_error h c _ _ rfl rfl rfl
+    · split
+      · exact effect_error h c _ _ rfl rfl rfl
+      · split
+        · exact effect_error h c _ _ rfl rfl rfl
+        · exact register_effect h _ c _ _ _ rfl rfl rfl
+
+theorem processHello_effect (cfg : Cfg) (env : Env) (now : Int) (h : Hub) (c : Nat) (m : Hello) :
+    HelloEffect h c (processHello cfg env now h c m) := by
+  unfold processHello
+  split
+  · exact helloResume_effect now h c m
+  · simp only []
+    split
+    · split
+      · exact helloV1_effect cfg h c m
+      · split
+        · exact helloV2_effect cfg env now h c m
+        · exact effect_error h c _ _ rfl rfl rfl
+    · split
+      · exact helloInternal_effect cfg now h c m
+      · exact effect_error h c _ _ rfl rfl rfl
+
+theorem step_hello_effect (cfg : Cfg) (env : Env) (now : Int) (h : Hub) (c : Nat) (m : Hello) :
+    HelloEffect h c (step cfg env now h (.hello c m)) := by
+  simp only [step]
+  split
+  · exact .refused h _ (by intros; simp) rfl rfl rfl
+  · split
+    · exact effect_error h c _ _ rfl rfl rfl
+    · split
+      · exact .refused h _ (by intros; simp) rfl rfl rfl
+      · exact processHello_effect cfg env now h c m
+
+/-- A hello that is not answered with a session leaves the session table, the connections and
+the id counter exactly as they were. -/
+theorem C01_refused_hello_keeps_sessions (cfg : Cfg) (env : Env) (now : Int) (h : Hub) (c : Nat) (m : Hello)
+    (hr : ∀ sid b k u, (step cfg env now h (.hello c m)).2 ≠ .hello sid b k u) :
+    (step cfg env now h (.hello c m)).1.sessions = h.sessions ∧
+    (step cfg env now h (.hello c m)).1.conns = h.conns ∧
+    (step cfg env now h (.hello c m)).1.nextSid = h.nextSid := by
+  have he := step_hello_effect cfg env now h c m
+  generalize step cfg env now h (.hello c m) = r at he hr
+  cases he with
+  | refused h' r _ h1 h2 h3 => exact ⟨h1, h2, h3⟩
+  | registered h' b k u _ _ _ => exact absurd rfl (hr _ _ _ _)
+  | resumed h' s _ _ _ => exact absurd rfl (hr _ _ _ _)
+
+/-! ## 4. The only way a connection becomes authenticated -/
+
+/-- connection `c` has a session (`client.GetSession() != nil`) -/
+def attached (h : Hub) (c : Nat) : Prop := ∃ s ∈ h.sessions, s.conn = some c
+
+theorem sessionOf_attached {h : Hub} {c : Nat} {s : Sess} (hs : h.sessionOf c = some s) : attached h c := by
+  unfold Hub.sessionOf at hs
+  exact ⟨s, List.mem_of_find?_eq_some hs, by simpa using List.find?_some hs⟩
+
+theorem attached_sessionOf {h : Hub} {c : Nat} (ha : attached h c) : (h.sessionOf c).isSome = true := by
+  obtain ⟨s, hm, hc⟩ := ha
+  unfold Hub.sessionOf
+  rw [List.find?_isSome]
+  exact ⟨s, hm, by simpa using hc⟩
+
+theorem step_attached (cfg : Cfg) (env : Env) (now : Int) (h : Hub) (op : Op) (c : Nat)
+    (ha : attached (step cfg env now h op).1 c) :
+    attached h c ∨ ∃ m sid b k u, op = .hello c m ∧ (step cfg env now h op).2 = .hello sid b k u := by
+  cases op with
+  | connect c' a =>
+    left
+    simp only [step] at ha
+    split at ha <;> exact ha
+  | disconnect c' =>
+    left
+    simp only [step] at ha
+    split at ha
+    · exact ha
+    · obtain ⟨s', hm, hc⟩ := ha
+      simp only [List.mem_map] at hm
+      obtain ⟨x, hx, rfl⟩ := hm
+      by_cases hxc : x.conn = some c'
+      · simp [hxc] at hc
+      · simp only [hxc, if_false] at hc
+        exact ⟨x, hx, hc⟩
+  | msg c' ty shape =>
+    left
+    simp only [step] at ha
+    split at ha
+    · exact ha
+    · split at ha
+      · exact ha
+      · split at ha
+        · exact ha
+        · exact ha
+        · split at ha <;> exact ha
+  | bye c' =>
+    left
+    simp only [step] at ha
+    split at ha
+    · exact ha
+    · split at ha
+      · exact ha
+      · obtain ⟨s', hm, hc⟩ := ha
+        exact ⟨s', (List.mem_filter.mp hm).1, hc⟩
+  | hello c' m =>
+    have he := step_hello_effect cfg env now h c' m
+    generalize hstep : step cfg env now h (.hello c' m) = r at he ha
+    cases he with
+    | refused h' r _ h1 _ _ =>
+      left
+      obtain ⟨s', hm, hc⟩ := ha
+      exact ⟨s', by simpa [h1] using hm, hc⟩
+    | registered h' b k u h1 _ _ =>
+      obtain ⟨s', hm, hc⟩ := ha
+      simp only [h1, List.mem_append, List.mem_singleton] at hm
+      rcases hm with hm | rfl
+      · exact Or.inl ⟨s', hm, hc⟩
+      · simp only [Option.some.injEq] at hc
+        subst hc
+        exact Or.inr ⟨m, _, _, _, _, rfl, rfl⟩
+    | resumed h' s _ h1 _ =>
+      obtain ⟨s', hm, hc⟩ := ha
+      simp only [h1, List.mem_map] at hm
+      obtain ⟨x, hx, rfl⟩ := hm
+      by_cases hxs : x.sid = s.sid
+      · simp only [hxs, if_true, Option.some.injEq] at hc
+        subst hc
+        exact Or.inr ⟨m, _, _, _, _, rfl, rfl⟩
+      · simp only [hxs, if_false] at hc
+        exact Or.inl ⟨x, hx, hc⟩
+
+/-- somewhere in the history `ops` started in state `h`, connection `c` sent a hello that was
+answered with a session -/
+def HelloedIn (cfg : Cfg) (env : Env) (now : Int) (c : Nat) : Hub → List Op → Prop
+  | _, [] => False
+  | h, op :: ops =>
+    (∃ m sid b k u, op = .hello c m ∧ (step cfg env now h op).2 = .hello sid b k u) ∨
+    HelloedIn cfg env now c (step cfg env now h op).1 ops
+
+/-- **The only way to become authenticated.** For every history: a connection that has a
+session at the end had one at the start or has, at some point, sent a hello that was answered
+with a session (whose credentials verified, by `C01_session_needs_credentials`). -/
+theorem C01_authenticated_only_by_hello (cfg : Cfg) (env : Env) (now : Int) (c : Nat) :
+    ∀ (ops : List Op) (h : Hub), attached (run cfg env now h ops).1 c →
+      attached h c ∨ HelloedIn cfg env now c h ops := by
+  intro ops
+  induction ops with
+  | nil => intro h ha; exact Or.inl ha
+  | cons op ops ih =>
+    intro h ha
+    simp only [run] at ha
+    rcases ih _ ha with h1 | h1
+    · rcases step_attached cfg env now h op c h1 with h2 | h2
+      · exact Or.inl h2
+      · exact Or.inr (Or.inl h2)
+    · exact Or.inr (Or.inr h1)
+
+/-! ## 5. The first clause along whole histories -/
+
+theorem step_hello_reply_is_hello_op (cfg : Cfg) (env : Env) (now : Int) (h : Hub) (op : Op)
+    (sid : Nat) (bid k u : String) (hs : (step cfg env now h op).2 = .hello sid bid k u) :
+    ∃ c m, op = .hello c m := by
+  cases op with
+  | hello c m => exact ⟨c, m, rfl⟩
+  | connect c a => simp only [step] at hs; split at hs <;> simp at hs
+  | disconnect c => simp only [step] at hs; split at hs <;> simp at hs
+  | msg c ty shape =>
+    simp only [step] at hs
+    split at hs
+    · simp at hs
+    · split at hs
+      · simp at hs
+      · split at hs
+        · simp at hs
+        · simp at hs
+        · split at hs <;> simp at hs
+  | bye c =>
+    simp only [step] at hs
+    split at hs
+    · simp at hs
+    · split at hs <;> simp at hs
+
+/-- every reply in the history that carries a session id answers a hello whose credentials
+verify in the state the server was in at that moment -/
+def TraceOK (cfg : Cfg) (env : Env) (now : Int) : Hub → List Op → Prop
+  | _, [] => True
+  | h, op :: ops =>
+    (∀ sid bid k u, (step cfg env now h op).2 = .hello sid bid k u →
+        ∃ c m, op = .hello c m ∧ ValidCreds cfg env now h.live m sid bid) ∧
+    TraceOK cfg env now (step cfg env now h op).1 ops
+
+theorem C01_session_needs_credentials_run (cfg : Cfg) (env : Env) (now : Int) :
+    ∀ (ops : List Op) (h : Hub), (∀ c m, Op.hello c m ∈ ops → RoutedByPrefix cfg m.url) →
+      TraceOK cfg env now h ops := by
+  intro ops
+  induction ops with
+  | nil => intros; trivial
+  | cons op ops ih =>
+    intro h hr
+    refine ⟨?_, ih _ (fun c m hm => hr c m (List.mem_cons_of_mem _ hm))⟩
+    intro sid bid k u hs
+    obtain ⟨c, m, rfl⟩ := step_hello_reply_is_hello_op cfg env now h op sid bid k u hs
+    exact ⟨c, m, rfl, C01_session_needs_credentials cfg env now h c m sid bid k u (hr c m List.mem_cons_self) hs⟩
 
 end SigModel.Auth
